@@ -24,7 +24,10 @@ PAYLOADS = [{"v": 1, "c": 0}, {"v": 2, "c": 0}]
 NAME = "{sat}_{hour}{minute}-{end_hour}{end_minute}.pkl"
 FILESETS = {
     "A": "a/{year}/{month}/{day}/" + NAME,
-    "DOY": "doy/{year}/{doy}/" + NAME,                    # month/day -> doy
+    # month/day -> doy, the end spelled as year + day of year + time (one of the
+    # periods crosses New Year)
+    "DOY": "doy/{year}/{doy}/{sat}_{hour}{minute}-{end_year}{end_doy}T"
+           "{end_hour}{end_minute}.pkl",
     "END": "end/{year}/{month}/{day}/{sat}_{hour}{minute}-{end_year}"
            "{end_month}{end_day}T{end_hour}{end_minute}.pkl",   # + end fields
     "USR": "usr/{year}/{month}/{day}/{sat}_{ver}_{hour}{minute}-{end_hour}"
